@@ -9,8 +9,11 @@ Campaign (implementation in worker processes, model inside Coq through Corr/C14J
   * the fault part: for saved files EVERY truncation point and EVERY single-byte corruption (XOR 0xFF, XOR 0x01;
     thorough: every single-bit mask) -> the load must raise or give back the original, never another array, never
     hang or crash the process.
-Violations of the known kinds carry the name of the failed domain clause (D9_gcxs_1d, D9_csr_csc_subclass,
-NB_shape_fits_coords_dtype, NB_construct_shape_type); everything else is reported without clause as a new violation."""
+  * rewritten archives from which every non-empty subset of the members was removed -> the load must raise.
+The former findings D9 (1-d / 0-d GCXS, CSR / CSC) and the damaged-file hole were repaired in /repo (a36d130): they
+have no clause any more, any recurrence is a NEW violation.  Violations of the remaining known kinds carry the name
+of the failed domain clause (NB_shape_fits_coords_dtype, NB_construct_shape_type, MM_optional_compressed_axes);
+everything else is reported without clause as a new violation."""
 import itertools
 import json
 import os
@@ -24,10 +27,13 @@ LEVEL = "proof"
 TRUSTED_BASE = [
     "Coq 8.16.1 kernel + vm_compute (case evaluation); no native_compute",
     "axioms: none (Print Assumptions: Closed under the global context for every C14 theorem)",
-    "ORACLE ASSUMPTION (a hypothesis of npz_file_roundtrip, not an axiom): zipfile / numpy.load give back exactly "
-    "the saved members of a complete np.savez(_compressed) file, and raise on a byte string whose central "
-    "directory or a member CRC does not verify (the model's `Damaged`); byte-level container integrity is "
-    "zipfile's, it is exercised (not proved) by the exhaustive truncation / single-byte-corruption campaign",
+    "ORACLE ASSUMPTION (the hypothesis np_load_savez of npz_file_roundtrip and the meaning of the constructors of "
+    "Model/Npz.v `file`; not an axiom): numpy.load raises on a byte string without a usable central directory "
+    "(`Unreadable`); ZipFile.testzip() reads every member to its end and reports every member whose CRC or local "
+    "header does not verify (`Archive false _`); the members of an archive that passes testzip read back as stored, "
+    "and what np.savez(_compressed) wrote is such an archive holding exactly the saved members.  Byte-level "
+    "container integrity (CRC-32, deflate) is zipfile's; it is exercised, not proved, by the exhaustive truncation / "
+    "single-byte-corruption campaign",
     "tools/sitegen/npz.py: extraction of the save_npz member table, the type(matrix) is ... chain, np.load "
     "arguments, load_npz attempts (reads, constructor wiring, flags, handlers), __getstate__/__setstate__ lists, "
     "copy() bodies, absence of copy hooks, Numba box/unbox field lists (fail-closed on any other shape of the AST)",
@@ -46,7 +52,8 @@ ASSUMPTIONS = [
 
 DTYPES = ["int8", "int16", "int32", "int64", "uint8", "uint16", "uint32", "uint64",
           "float32", "float64", "complex64", "complex128", "bool"]
-CLAUSES = {0: "D9_gcxs_1d", 1: "D9_csr_csc_subclass", 2: "NB_shape_fits_coords_dtype", 3: "NB_construct_shape_type"}
+CLAUSES = {2: "NB_shape_fits_coords_dtype", 3: "NB_construct_shape_type", 4: "MM_optional_compressed_axes"}
+MEMBERS = ["data", "shape", "fill_value", "coords", "indices", "indptr", "compressed_axes"]
 KCODE = {"COO": 0, "GCXS": 1, "CSR": 2, "CSC": 3}
 EXC_CODE = {"ValueError": 1, "RuntimeError": 2, "TypeError": 3, "IndexError": 4}
 
@@ -251,8 +258,17 @@ def saved_file(spec, compressed):
     return _FILES[key]
 
 
+def as_saved_fields(f):
+    """what an intact file gives back: a CSR / CSC is loaded as a plain GCXS with the same fields"""
+    g = dict(f)
+    if g["k"] in (2, 3):
+        g["k"] = 1
+    return g
+
+
 def load_bytes(buf, orig):
-    """0 raised | 1 same array | 2 different array"""
+    """0 raised | 1 the array an intact file gives | 2 a different array"""
+    orig = as_saved_fields(orig)
     import io
     import sparse
     try:
@@ -264,6 +280,25 @@ def load_bytes(buf, orig):
     except Exception as ex:  # noqa: BLE001
         return 2, "unobservable:" + type(ex).__name__
     return (1, None) if f == orig else (2, f)
+
+
+def impl_missing(case):
+    """rewrite the saved archive without the listed members and load it"""
+    import io
+    import zipfile
+    import sparse
+    spec, compressed, dropped = case
+    orig, buf = saved_file(spec, compressed)
+    drop = {MEMBERS[c] + ".npy" for c in dropped}
+    src = zipfile.ZipFile(io.BytesIO(buf))
+    names = src.namelist()
+    out = io.BytesIO()
+    with zipfile.ZipFile(out, "w", zipfile.ZIP_DEFLATED if compressed else zipfile.ZIP_STORED) as z:
+        for n in names:
+            if n not in drop:
+                z.writestr(n, src.read(n))
+    o, _ = outcome_of(lambda: sparse.load_npz(io.BytesIO(out.getvalue())))
+    return {"in": orig, "members": names, "removed": sorted(drop & set(names)), "outcome": o}
 
 
 def fault_positions(buf, kind, part, parts):
@@ -295,9 +330,16 @@ def impl_fault(case):
     orig, buf = saved_file(spec, compressed)
     pos = fault_positions(buf, kind, part, parts) if only is None else list(only)
     outs, hist, diffs = [], {}, []
+    want = as_saved_fields(orig)
+    other_pos = []      # positions whose different array is NOT just "compressed_axes became None"
     for i in pos:
         code, info = load_bytes(apply_fault(buf, kind, i), orig)
         outs.append(code)
+        if code == 2:
+            axes_only = (isinstance(info, dict) and info.get("axes") is None
+                         and [k for k in want if k not in ("axes", "idx", "fill_dtype") and info.get(k) != want[k]] == [])
+            if not axes_only:
+                other_pos.append(i)
         key = {0: "exc:" + str(info), 1: "same", 2: "DIFFERENT"}[code]
         hist[key] = hist.get(key, 0) + 1
         if code == 2 and len(diffs) < 3:
@@ -308,7 +350,7 @@ def impl_fault(case):
     # the complete file itself must load as the original
     whole, _ = load_bytes(buf, orig)
     return {"in": orig, "len": len(buf), "positions": pos, "outs": outs, "hist": hist,
-            "diffs": diffs, "whole": whole}
+            "diffs": diffs, "whole": whole, "other_pos": other_pos}
 
 
 # =========================================================================== generation (driver)
@@ -318,9 +360,6 @@ def _w(fmt, shape, dense, axes):
 
 
 WITNESSES = [
-    ("npz_roundtrip_refuted_gcxs_1d", _w("gcxs", [6], [0, 5, 6, 0, 0, 0], None), "npz_c", 10),
-    ("npz_roundtrip_refuted_csr", _w("csr", [2, 3], [[0, 5, 0], [0, 0, 6]], [0]), "npz_c", 11),
-    ("npz_roundtrip_refuted_csc", _w("csc", [2, 3], [[0, 5, 0], [0, 0, 6]], [1]), "npz_u", 11),
     ("numba_boxing_roundtrip_refuted",
      {"fmt": "coo", "shape": [300], "axes": None, "pattern": "raw", "dtype": "int64", "fill": "0", "seed": 0,
       "raw": {"idx": "int8", "coords": [[0, 1]], "data": [5, 6]}}, "numba_identity", 12),
@@ -328,6 +367,11 @@ WITNESSES = [
      {"fmt": "coo", "shape": [], "axes": None, "pattern": "raw", "dtype": "int64", "fill": "0", "seed": 0,
       "raw": {"idx": "int64", "coords": [], "data": [7]}}, "numba_construct", 13),
 ]
+# arrays of the former D9 witnesses (now inside the proved domain) are kept as ordinary cases
+FORMER_D9 = [_w("gcxs", [6], [0, 5, 6, 0, 0, 0], None), _w("csr", [2, 3], [[0, 5, 0], [0, 0, 6]], [0]),
+             _w("csc", [2, 3], [[0, 5, 0], [0, 0, 6]], [1])]
+# witness of npz_missing_member_refuted: the 3-d GCXS file without its compressed_axes member
+MM_WITNESS = ({"fmt": "gcxs", "shape": [2, 3, 4], "axes": [0, 2], "pattern": "partial", "dtype": "int64", "fill": "0", "seed": 21}, [6], 14)
 
 
 def axes_subsets(nd):
@@ -371,14 +415,14 @@ def gen_specs(tier, rng):
             for pat in patterns:
                 add("coo", sh, None, pat)
                 if nd < 2:
-                    add("gcxs", sh, None, pat)          # compressed_axes is None: clause D9_gcxs_1d
+                    add("gcxs", sh, None, pat)          # compressed_axes is None
                 else:
                     for ax in axes_subsets(nd):
                         add("gcxs", sh, ax, pat)
                 if nd == 2:
-                    add("csr", sh, [0], pat)             # clause D9_csr_csc_subclass
+                    add("csr", sh, [0], pat)             # comes back as a plain GCXS
                     add("csc", sh, [1], pat)
-    specs.extend(w[1] for w in WITNESSES if not w[2].startswith("numba"))
+    specs.extend(FORMER_D9)
     # the full dtype x fill table on one 2-d shape, COO and GCXS (both axes)
     for d, f in combos:
         for fmt, ax in (("coo", None), ("gcxs", [0]), ("gcxs", [1])):
@@ -431,6 +475,12 @@ def gen_fault_files(tier, rng):
         {"fmt": "coo", "shape": [0, 3], "axes": None, "pattern": "empty", "dtype": "complex64", "fill": "0", "seed": 5},
         {"fmt": "coo", "shape": [5], "axes": None, "pattern": "partial", "dtype": "bool", "fill": "true", "seed": 6},
     ]
+    repaired = [   # the classes that could not be loaded at all before the repair
+        {"fmt": "gcxs", "shape": [6], "axes": None, "pattern": "partial", "dtype": "int64", "fill": "0", "seed": 12},
+        {"fmt": "csr", "shape": [3, 4], "axes": [0], "pattern": "partial", "dtype": "float32", "fill": "3", "seed": 13},
+        {"fmt": "gcxs", "shape": [], "axes": None, "pattern": "empty", "dtype": "int16", "fill": "3", "seed": 14},
+        {"fmt": "csc", "shape": [24, 25], "axes": [1], "pattern": "full", "dtype": "int64", "fill": "0", "seed": 15},
+    ]
     # members larger than zipfile's read-ahead (4096 bytes): the CRC of a member is verified only when it is read to
     # its end, so these files probe what happens when a corrupted header makes numpy stop early
     big = [
@@ -446,15 +496,18 @@ def gen_fault_files(tier, rng):
         for s in small[:4]:
             for comp in (True, False):
                 files.append((s, comp, kinds + ([] if comp else hdr), 2))
+        files.append((repaired[0], False, kinds + hdr, 2))
+        files.append((repaired[1], True, kinds, 2))
+        files.append((repaired[3], False, hdr, 1))
         files.append((big[0], True, kinds, 12))
         files.append((big[2], True, kinds, 12))
-        files.append((big[1], False, kinds, 24))
         files.append((big[1], False, hdr, 1))
         files.append((big[0], False, hdr, 1))
     else:
-        for s in small:
+        for s in small + repaired[:3]:
             for comp in (True, False):
                 files.append((s, comp, kinds + allbits, 4))
+        files.append((repaired[3], False, kinds + allbits, 24))
         for s in big:
             for comp in (True, False):
                 files.append((s, comp, kinds + allbits, 24))
@@ -467,6 +520,31 @@ def gen_fault_files(tier, rng):
             files.append(({"fmt": fmt, "shape": sh, "axes": ax, "pattern": rng.choice(["partial", "full"]), "dtype": d,
                            "fill": rng.choice(fills_for(d)), "seed": rng.randrange(1 << 30)}, rng.random() < 0.5, kinds, 4))
     return files
+
+
+def gen_missing_cases(tier):
+    """(spec, compressed, removed member codes): every non-empty subset of the members of each file"""
+    base = [
+        ({"fmt": "coo", "shape": [2, 3], "axes": None, "pattern": "partial", "dtype": "int64", "fill": "0", "seed": 1}, [0, 1, 2, 3]),
+        ({"fmt": "coo", "shape": [], "axes": None, "pattern": "full", "dtype": "float64", "fill": "nan", "seed": 2}, [0, 1, 2, 3]),
+        ({"fmt": "gcxs", "shape": [6], "axes": None, "pattern": "partial", "dtype": "int64", "fill": "0", "seed": 12}, [0, 1, 2, 4, 5]),
+        ({"fmt": "gcxs", "shape": [2, 3], "axes": [1], "pattern": "partial", "dtype": "int32", "fill": "3", "seed": 16}, [0, 1, 2, 4, 5, 6]),
+        (MM_WITNESS[0], [0, 1, 2, 4, 5, 6]),
+        ({"fmt": "csr", "shape": [3, 4], "axes": [0], "pattern": "partial", "dtype": "float32", "fill": "3", "seed": 13}, [0, 1, 2, 4, 5, 6]),
+    ]
+    if tier != "quick":
+        base += [
+            ({"fmt": "gcxs", "shape": [], "axes": None, "pattern": "empty", "dtype": "int16", "fill": "3", "seed": 14}, [0, 1, 2, 4, 5]),
+            ({"fmt": "csc", "shape": [3, 4], "axes": [1], "pattern": "full", "dtype": "bool", "fill": "true", "seed": 17}, [0, 1, 2, 4, 5, 6]),
+            ({"fmt": "gcxs", "shape": [2, 2, 1, 2, 2], "axes": [1, 3, 4], "pattern": "partial", "dtype": "complex64", "fill": "inf", "seed": 18}, [0, 1, 2, 4, 5, 6]),
+        ]
+    cases = []
+    for spec, mem in base:
+        for r in range(1, len(mem) + 1):
+            for sub in itertools.combinations(mem, r):
+                for comp in ((True, False) if tier != "quick" else (len(cases) % 2 == 0,)):
+                    cases.append((spec, comp, list(sub)))
+    return cases
 
 
 # =========================================================================== Coq literals
@@ -485,7 +563,7 @@ def olit(o):
     return f"({EXC_CODE.get(o.get('exc'), 9)}, None)"
 
 
-IMPORTS = "From Verif Require Import Py Shape COO S_npz Npz C14Judge."
+IMPORTS = "From Verif Require Import Py Shape COO S_npz Npz NpzP C14Judge."
 
 
 def spec_py(spec):
@@ -614,6 +692,31 @@ def campaign(build, tier, seed, report, budget=1):
                                    f"(verdict {w['observed_verdict']}, expected {w['expected_verdict']})")
 
     phase["numba_s"] = round(time.time() - t0 - phase["roundtrips_s"], 1)
+    # ---------------------------------------------------------------- archives with members removed
+    mcases = gen_missing_cases(tier)
+    mres = vlib.run_impl("props.c14", "impl_missing", mcases, workers=8, per_case_timeout=60.0)
+    m_l = []
+    for case, r in zip(mcases, mres, strict=True):
+        o = r.get("outcome") if "in" in r else r
+        evaluations += 1
+        tag("missing", "removed" + str(len(case[2])), "raised" if o and "exc" in o else "loaded" if o and "out" in o else "hang")
+        m_l.append(vpair(jlit(r["in"]) if "in" in r else jlit(mres[0]["in"]), vlist(case[2]), olit(o)))
+    for ci, code in build.judge("c14_missing", IMPORTS, "jarr * list Z * outcome", "judge_missing", m_l, chunk=400):
+        case, r = mcases[ci], mres[ci]
+        tag("verdict", "c14_missing", code)
+        verdicts[(json.dumps(case[0], sort_keys=True), "missing" + str(case[2]))] = code
+        cl = clause_of(code)
+        viol.append({"property": "C14", "op": "load_npz_missing_member", "kind": kind_of(code), "clause": cl, "verdict_code": code,
+                     "what": f"archive without member(s) {[MEMBERS[c] for c in case[2]]}: " +
+                             ("loaded as an array instead of raising" if code in (3, 14, 24) else CODE_TEXT.get(code, str(code))) +
+                             (f" (clause {cl})" if cl else ""),
+                     "case": {"spec": case[0], "compressed": case[1], "removed": [MEMBERS[c] for c in case[2]]},
+                     "impl": r.get("outcome", r), "replay_py": replay_line("replay_missing", case[0], case[1], case[2])})
+    mmv = verdicts.get((json.dumps(MM_WITNESS[0], sort_keys=True), "missing" + str(MM_WITNESS[1])), 0)
+    cov["refuted_witnesses_replayed"].append({"theorem": "npz_missing_member_refuted", "operation": "load of the archive without compressed_axes",
+                                              "expected_verdict": MM_WITNESS[2], "observed_verdict": mmv, "reproduced": mmv == MM_WITNESS[2]})
+    if mmv != MM_WITNESS[2]:
+        report["notes"].append(f"witness of npz_missing_member_refuted did not reproduce (verdict {mmv})")
     # ---------------------------------------------------------------- damaged files
     fcases = []
     for fi, (spec, comp, kinds, parts) in enumerate(files):
@@ -646,12 +749,23 @@ def campaign(build, tier, seed, report, budget=1):
                          "replay_py": replay_line("replay_case", case[0], "npz_c" if case[1] else "npz_u")})
         f_l.append(vpair(jlit(r["in"]), vlist(r["outs"])))
         f_i.append(ci)
+    mech = {}
     for k, code in build.judge("c14_fault", IMPORTS, "jarr * list Z", "judge_fault", f_l, chunk=40):
         ci = f_i[k]
         case, r = fcases[ci], fres[ci]
         tag("verdict", "c14_fault", code)
         bad = [p for p, o in zip(r["positions"], r["outs"], strict=True) if o == 2]
-        v = {"property": "C14", "op": "load_npz_damaged", "kind": kind_of(code), "clause": None, "fault_kind": case[2],
+        hint = None
+        n_axes_only = len(bad) - len(r.get("other_pos", []))
+        mech["axes_member_hidden"] = mech.get("axes_member_hidden", 0) + n_axes_only
+        mech["other"] = mech.get("other", 0) + len(r.get("other_pos", []))
+        if bad and not r.get("other_pos"):
+            hint = ("only compressed_axes differs (None): the damage hid the optional compressed_axes member from the "
+                    "archive directory — same mechanism as clause MM_optional_compressed_axes")
+        elif r.get("other_pos"):
+            bad = r["other_pos"] + [b for b in bad if b not in r["other_pos"]]
+        v = {"property": "C14", "op": "load_npz_damaged" if (hint or not bad) else "load_npz_damaged_other",
+             "kind": kind_of(code), "clause": None, "fault_kind": case[2], "mechanism_hint": hint,
              "case": {"spec": case[0], "compressed": case[1], "kind": case[2], "file_length": r["len"], "positions": bad[:50]},
              "impl": r["diffs"], "verdict_code": code,
              "what": CODE_TEXT.get(code, str(code)) + (": " + case[2] + f" at byte(s) {bad[:10]} of a {r['len']}-byte file" if bad else ""),
@@ -667,7 +781,8 @@ def campaign(build, tier, seed, report, budget=1):
                    "subset, dtype x fill table walked in order) x {npz compressed, npz uncompressed, pickle protocols 0..5, 5 copy "
                    "calls}; Numba: identity / constructor on COO per (dtype, ndim) class plus narrow-index boundary cases; faults: "
                    "every truncation point and every single-byte XOR (0xFF, 0x01; thorough: every single-bit mask) of each listed "
-                   "file; evaluations = operation results judged + damaged-file loads; distinct_nontrivial = distinct input "
+                   "file; rewritten archives with every non-empty subset of the members removed; evaluations = operation "
+                   "results judged + damaged-file loads; distinct_nontrivial = distinct input "
                    "representations that are not the 0-d empty array")
     cov["arrays"] = len(specs)
     cov["numba_arrays"] = len(nb_specs)
@@ -675,6 +790,7 @@ def campaign(build, tier, seed, report, budget=1):
                            "bytes": file_lens.get((json.dumps(f[0], sort_keys=True), f[1]))} for f in files]
     cov["fault_loads"] = fault_loads
     cov["fault_outcomes"] = dict(sorted(fault_hist.items()))
+    cov["fault_different_array_mechanisms"] = mech
     cov["exhaustive"] = True
     cov["branch_tags"] = dict(sorted(tags.items()))
     cov["samples"] = [{"spec": specs[i], "in": res[i].get("in"), "npz_c": res[i].get("ops", {}).get("npz_c")}
@@ -733,6 +849,16 @@ def replay_fault(spec, compressed, kind, pos):
         print("loaded  :", str(info)[:400])
         if isinstance(info, dict):
             print("fields that differ:", [k for k in orig if orig[k] != info.get(k)])
+
+
+def replay_missing(spec, compressed, dropped):
+    import sys
+    sys.path.insert(0, vlib.REPO)
+    import warnings
+    warnings.filterwarnings("ignore")
+    r = impl_missing((spec, compressed, dropped))
+    print("members of the saved file:", r["members"], "removed:", r["removed"])
+    print("load_npz ->", str(r["outcome"])[:600])
 
 
 def replay(path):
